@@ -95,7 +95,11 @@ func (m *TlvModel) GenEncodeInto(buf *bytes.Buffer) error {
 
 			{{if .NoCopy}}
 				wireIdx := 0
-				buf := wire[wireIdx]
+				// A value with every field absent has an empty wire plan
+				var buf []byte
+				if wireIdx < len(wire) {
+					buf = wire[wireIdx]
+				}
 			{{end}}
 
 			pos := uint(0)
